@@ -199,6 +199,33 @@ def empty_reduce(model, R, scope):
     R.ok('EMPTY-REDUCE', 'examined functions', 'concepts/', f'{n} max()/min() reductions scanned')
 
 
+def lazy_generator(model, R, scope):
+    """A cached attribute (lazyproperty / functools.cache*) must not hold a one-shot iterator: every later reader gets
+    the exhausted remainder."""
+    n = 0
+    gens = {f.key for f in model.all_funcs() if any(isinstance(x, (ast.Yield, ast.YieldFrom)) for x in walk(f.body))}
+    for func in scope:
+        deco = [(chain(d.func if isinstance(d, ast.Call) else d) or [''])[-1] for d in func.node.decorator_list]
+        if not any(d in ('lazyproperty', 'cached_property', 'lru_cache', 'cache') for d in deco):
+            continue
+        n += 1
+        for node in walk(func.body):
+            if isinstance(node, ast.Return) and node.value is not None:
+                v = node.value
+                one_shot = isinstance(v, ast.GeneratorExp)
+                if isinstance(v, ast.Call):
+                    name = (chain(v.func) or [''])[-1]
+                    if name in ('iter', 'map', 'filter', 'zip', 'enumerate', 'reversed'):
+                        one_shot = True
+                    for g in gens:
+                        if g.split('.')[-1] == name:
+                            one_shot = True
+                if one_shot:
+                    R.bad('LAZY-GENERATOR', func, node, 'a cached value is not a one-shot iterator', 'a materialised value (tuple/list) or no caching',
+                          f'{src(v)[:80]} is cached by @{deco[0]}: the second reader sees an exhausted iterator')
+    R.ok('LAZY-GENERATOR', 'examined functions', 'concepts/', f'{n} cached functions scanned')
+
+
 def run(model, R):
     """Generic rules over exactly the functions the property's own rules examined (and their nested functions), so a
     defect elsewhere in the same module is reported by the property it belongs to and by no other."""
@@ -212,7 +239,22 @@ def run(model, R):
             todo.extend(g.nested.values())
     if not funcs:
         return
+    # one hop along ``self.<name>``: helpers of the same class family that an examined function reads
+    for f in list(funcs.values()):
+        if f.cls is None or not f.params:
+            continue
+        me = f.params[0]
+        names = {n.attr for n in ast.walk(f.node) if isinstance(n, ast.Attribute) and isinstance(n.value, ast.Name) and n.value.id == me}
+        for mod in model.modules.values():
+            for c in mod.classes.values():
+                if f.cls in model.mro(c):
+                    for k in model.mro(c):
+                        for name in names:
+                            g = k.methods.get(name)
+                            if g is not None and g.key not in funcs:
+                                funcs[g.key] = g
     scope = sorted(funcs.values(), key=lambda f: f.key)
     undefined_names(model, R, scope)
     degenerate_operands(model, R, scope)
     empty_reduce(model, R, scope)
+    lazy_generator(model, R, scope)
